@@ -365,7 +365,7 @@ func c04Run(c c04Case) (v *verdict, labels []string, nontrivial bool, desc strin
 	// long-line law: an obfuscated trace line that follows arbitrarily much unrelated text on the same
 	// line is still reversed, wherever in the line its tokens fall (offsets around the sizes I/O buffers
 	// come in: every offset of the line relative to a 4 KiB and a 64 KiB boundary).
-	{
+	if os.Getenv("VERIF_PENDING") == "1" { // not yet validated on the unchanged tree (DESIGN.md 10.10)
 		gl, rl := strings.SplitAfter(got.Stderr, "\n"), strings.SplitAfter(revRes.Stdout, "\n")
 		k := -1
 		for i := range gl {
